@@ -10,7 +10,7 @@
      Inv            the invariant of C07 (see Properties_C07.v)                                                  *)
 From Coq Require Import Permutation.
 From RtrV Require Import Base.CSem Gen.Generated Rtr.RtrModel Rtr.SyncSets Rtr.ExpiryFrames Rtr.ExpirySync
-  Rtr.ConvergeStutter Rtr.ExpiryProofs Rtr.ConvergeProofs.
+  Rtr.ConvergeStutter Rtr.ExpiryProofs Rtr.CacheSpec Rtr.ConvergeRecv Rtr.ConvergeProofs.
 Local Open Scope Z_scope.
 
 (* (1) safety, all environments: an iteration of the state machine that ends with the clock where it was has
@@ -43,7 +43,81 @@ Theorem C08_inv : forall n fuel w, Inv w ->
   (last_update (sk w') = 0 -> req_sess (sk w') = true /\ no_data w').
 Proof. exact consistent_reachable. Qed.
 
+(* (3) the truthful cache (Rtr/CacheSpec.v: wire-level data sets, answer : cache -> query -> list of PDUs) and one good
+   exchange.  Vocabulary:
+     delivers es B tail     the receive script es is data events whose concatenation is B - in ANY chunking - followed by tail
+     pending_query w        Reset Query if a session is requested, else Serial Query (session_id, serial)
+     served c q             the cache answers q with data (Reset Query; Serial Query of its session and a remembered serial)
+     truthful_stream c w    answer c (pending_query w), followed - when that is a Cache Reset - by answer c QReset
+     exchange_steps c w     1 if served, else 4 (SYNC -> NO_INCR -> RESET -> SYNC -> ESTABLISHED)
+     snapshot_hyp c w       (C08_snapshot, as a hypothesis) if the client has a session and a serial the cache remembers,
+                            its records are - up to order - the cache's data set at that serial
+     synced c w w'          ESTABLISHED; own_p / own_k of the tables are the cache's current data set up to order; records of
+                            other sources untouched; session_id, serial are the cache's; req_sess = false;
+                            last_update = now w; no virtual time has passed                                                *)
+Theorem C08_receive_any_chunking : forall timeout w p B tail,
+  pdu_ok (version (sk w)) p -> (version (sk w) = 0 \/ version (sk w) = 1) ->
+  st (sk w) <> c_RTR_SHUTDOWN -> delivers (evs w) (p ++ B) tail ->
+  exists w', receive_pdu timeout w = Ok (inr p) w' /\ delivers (evs w') B tail /\
+             sk w' = (if has_recv (sk w) then sk w else seen (sk w)) /\
+             pfx w' = pfx w /\ keys w' = keys w /\ opens w' = opens w /\ sends w' = sends w /\ now w' = now w.
+Proof. exact receive_pdu_data. Qed.
+
+Theorem C08_one_good_exchange : forall f w c B tail,
+  Inv w -> st (sk w) = c_RTR_SYNC -> version (sk w) = c_ver c -> cache_ok c -> snapshot_hyp c w -> sends w = [] ->
+  delivers (evs w) (truthful_stream c w ++ B) tail ->
+  (List.length (c_data c) < f)%nat -> (forall k old, In (k, old) (c_hist c) -> (List.length (delta_pdus old (c_data c)) < f)%nat) ->
+  let w' := run_fsm (exchange_steps c w) (S f) w in
+  (st (sk w') = c_RTR_ESTABLISHED /\
+   Permutation (own_p (pfx w')) (precs (c_data c)) /\ Permutation (own_k (keys w')) (krecs (c_data c)) /\
+   oth_p (pfx w') = oth_p (pfx w) /\ oth_k (keys w') = oth_k (keys w) /\
+   session_id (sk w') = c_session c /\ serial (sk w') = c_serial c /\ req_sess (sk w') = false /\
+   last_update (sk w') = now w /\ now w' = now w) /\
+  delivers (evs w') B tail /\ Inv w'.
+Proof. exact one_good_exchange. Qed.
+
+Theorem C08_one_good_exchange_example :
+  cache_ok ex_cache /\
+  let w2 := run_fsm 2 100 ex_w0 in
+  pending_query w2 = QReset /\ synced ex_cache w2 (run_fsm 1 100 w2) /\ Inv (run_fsm 1 100 w2).
+Proof. split; [exact ex_cache_ok|exact one_good_exchange_reset_example]. Qed.
+
+(* (4) C08_converge_partial: recovery from each single error state, under the invariant, with a transport that works
+   again.  recovery_bound s = refresh_iv s + retry_iv s + 2 * RTR_RECV_TIMEOUT.
+   (a) every error / reconnect state is back in SYNC with its query sent after <= 3 iterations and 0 or retry_iv seconds,
+       without reading anything (calm t: clock + t, receive script, send script, version, retry_iv, other sources unchanged);
+   (b) ESTABLISHED with a silent cache: when the refresh timer runs out (<= refresh_iv after the last success) the Serial
+       Query is sent: SYNC;
+   (c) SYNC with a silent cache: after the 60 s receive timeout: ERROR_TRANSPORT, then (a);
+   (d) in SYNC, C08_one_good_exchange: ESTABLISHED and synchronised after 1 or 4 iterations and no time.
+   Worst case (c)+(a)+(d): 60 + retry_iv; (b)+(d): refresh_iv; both <= recovery_bound. *)
+Theorem C08_converge_partial :
+  (forall f w os, Inv w -> recovering (st (sk w)) -> opens w = true :: os -> sends w = [] ->
+     exists n t, (n <= 3)%nat /\ (t = 0 \/ t = retry_iv (sk w)) /\
+       let w' := run_fsm n f w in st (sk w') = c_RTR_SYNC /\ calm t w w' /\ Inv w') /\
+  (forall f w v rest, st (sk w) = c_RTR_ESTABLISHED -> sends w = [] ->
+     let wait := Z.max 0 (last_update (sk w) + refresh_iv (sk w) - now w) in
+     evs w = EvWait v :: rest -> wait < v ->
+     exists w1, fsm_step f w = Ok tt w1 /\ st (sk w1) = c_RTR_SYNC /\ now w1 = now w + wait /\
+                opens w1 = opens w /\ sends w1 = [] /\ pfx w1 = pfx w /\ keys w1 = keys w /\ core (sk w1) = core (sk w) /\
+                evs w1 = EvWait (v - wait) :: rest) /\
+  (forall f w v rest, st (sk w) = c_RTR_SYNC -> evs w = EvWait v :: rest -> c_RTR_RECV_TIMEOUT < v ->
+     exists w1, fsm_step (S f) w = Ok tt w1 /\ st (sk w1) = c_RTR_ERROR_TRANSPORT /\ now w1 = now w + c_RTR_RECV_TIMEOUT /\
+                opens w1 = opens w /\ sends w1 = sends w /\ pfx w1 = pfx w /\ keys w1 = keys w /\ core (sk w1) = core (sk w) /\
+                evs w1 = EvWait (v - c_RTR_RECV_TIMEOUT) :: rest).
+Proof. split; [exact reach_sync|]. split; [exact established_quiet|exact sync_quiet]. Qed.
+
+(* The full statement (closed loop over a reacting truthful cache, from ANY reachable world, with the time bound) is kept
+   visible as Rtr/ConvergeProofs.v [C08_converge_full : Prop]; it is NOT proved.  Missing: the composition of (a)-(d) over
+   run_with_cache, and C08_snapshot (that snapshot_hyp holds after every fault prefix whose completed well-formed
+   responses were truthful). *)
+Definition C08_converge_full_statement : Prop := C08_converge_full.
+
 Print Assumptions C08_no_stutter.
 Print Assumptions C08_no_stutter_iter.
 Print Assumptions C08_zero_time_bounded.
 Print Assumptions C08_inv.
+Print Assumptions C08_receive_any_chunking.
+Print Assumptions C08_one_good_exchange.
+Print Assumptions C08_one_good_exchange_example.
+Print Assumptions C08_converge_partial.
